@@ -12,7 +12,8 @@ MODULES = ['Netpoll.Props.C04']
 MANIFEST = dict(
     text='Lean 4 theorems: for every split into vectors and every kernel acceptance pattern (short writes, EAGAIN) the bytes the kernel accepted followed by what is still buffered are the flushed stream, '
          'iovecs denotes exactly a prefix of the chunks, and for every chunking of received data the readable stream is their concatenation - on top of the C01 refinement. '
-         'Tied to the code by a scripted-kernel run of the real FDOperator callbacks compared with the model, and validated end-to-end on real unix/TCP sockets with tiny buffers, random Writer/Reader API mixes (blocking readers, OnRequest handlers, and polling readers that call Release() whenever Len()==0 while a raw peer sends 1..48-byte pieces; senders whose epoll_ctl calls are delayed by 0/2 ms while every flush exceeds the socket buffer) and a position-keyed stream; a stall watchdog reports bytes the peer sent that never become readable while the reader keeps reading.',
+         'Tied to the code by a scripted-kernel run of the real FDOperator callbacks compared with the model, and validated end-to-end on real unix/TCP sockets with tiny buffers, random Writer/Reader API mixes (blocking readers, OnRequest handlers, and polling readers that call Release() whenever Len()==0 while a raw peer sends 1..48-byte pieces; senders whose epoll_ctl calls are delayed by 0/2 ms while every flush exceeds the socket buffer; BIDIRECTIONAL pairs - both endpoints netpoll connections that push streams larger than the socket buffers at the same time while each reads the other\'s; a raw peer that sends a reply and shuts its write side down while our flush is parked in the poller - the reply must be read before end-of-stream; single flushes of 34..48 non-empty output nodes, more than the iovec barrier holds, in the real-socket sender and in the scripted-kernel sequences) and a position-keyed stream; a stall watchdog reports bytes the peer sent that never become readable while the reader keeps reading, and the dead-lock of two endpoints that flush and read at once. '
+         'Theorem C04_getBytes_barrier: GetBytes with the barrier capacity returns, for any number of nodes, at most barriercap vectors that are a prefix split of the flushed stream (the hypothesis of the round theorems).',
     note='partial: the kernel socket as a lossless FIFO (A-kernel-fifo) and Go\'s memory model for the single-producer/single-consumer input buffer (A-go-mm) are assumptions; the flusher/poller hand-off is C08, EOF ordering rests on C06/C11. Real-socket runs sample schedules.',
     technique='Lean 4 theorems over the spec queue with an adversarial kernel + scripted-kernel correspondence + real-socket stream oracle', design='§6 C04')
 
@@ -81,11 +82,12 @@ def run(rep):
             l2, _, _ = real_run(rbin, rep.seed, nreal, 1, thorough, only=sid)
             if l2 and ':: FAIL' in l2[0]: again += 1
         confirmed.append((l, again))
-    tr = collections.Counter(re.search(r'transport=(\w+)', l).group(1) + ('/jitter' if 'jitter=true' in l else '') + ('/handler' if 'handler=true' in l else '/poll' if 'poll=true' in l else '/reader') for l in lines)
+    tr = collections.Counter(re.search(r'transport=(\w+)', l).group(1) + ('/jitter' if 'jitter=true' in l else '') + ('/bidi' if 'bidi=true' in l else '') + ('/reply-then-close' if 'reply=true' in l else '') + ('/burst' if 'burst=true' in l else '')
+                             + ('/handler' if ' handler=true' in l else '/poll' if 'poll=true' in l else '/reader') for l in lines)
     total_bytes = sum(int(re.search(r' got=(\d+)', l).group(1)) for l in lines)
     rep.cov.update(evaluations=nseq + len(lines), distinct_nontrivial=len(finals) + len(set(re.sub(r'seed=\d+ id=\d+| ms=\d+', '', l) for l in lines)),
                    rule='(a) scripted kernel: random Writer ops, submit, output rounds accepting an arbitrary part of what GetBytes offered, input chunks of arbitrary size, reader ops - on a real connection in-package, every reply compared with Netpoll.Conn.Stream; '
-                        '(b) real sockets: unix pair / unix listener / tcp, SO_SNDBUF/SO_RCVBUF 4096 or default, payload 1 B..1 MB (32 MB thorough), random Writer API mix and chunking, OnRequest handler or blocking reader with random Reader ops and pace, sender closes after its last Flush; every sixth scenario: polling reader (Len()==0 -> Release(), else a random non-blocking Reader op) against a raw peer writing 0.1..1 MB in 1..48-byte pieces, with a stall watchdog (outstanding bytes, reader polling, nothing readable for 4 s); every sixth scenario: the operator.poll of the sender forwards to the real poll with a pause of 0 or 2 ms in front of every Control call (nothing dropped or reordered), payload >= 200 KB through 4 KB socket buffers, progress watchdog 10 s; oracle = position-keyed stream + byte count at end-of-stream + no stall. distinct_nontrivial = distinct scripted final states + distinct real scenario lines',
+                        '(b) real sockets: unix pair / unix listener / tcp, SO_SNDBUF/SO_RCVBUF 4096 or default, payload 1 B..1 MB (32 MB thorough), random Writer API mix and chunking, OnRequest handler or blocking reader with random Reader ops and pace, sender closes after its last Flush; every sixth scenario: polling reader (Len()==0 -> Release(), else a random non-blocking Reader op) against a raw peer writing 0.1..1 MB in 1..48-byte pieces, with a stall watchdog (outstanding bytes, reader polling, nothing readable for 4 s); every sixth scenario: the operator.poll of the sender forwards to the real poll with a pause of 0 or 2 ms in front of every Control call (nothing dropped or reordered), payload >= 200 KB through 4 KB socket buffers, progress watchdog 10 s; every sixth scenario (bidi): both endpoints are netpoll connections (socketpair, or dialed client + served connection over tcp/unix), each sends its own position-keyed stream of 100..400 KB through 4 KB socket buffers with the random Writer mix while it reads the other one\'s (blocking reader or OnRequest handler on either side), nobody closes before both streams are complete, then one side closes and the other sees end-of-stream and nothing more, progress watchdog 10 s on the sum of both directions; every sixth scenario (reply-then-close): a connection writes 200 KB (4 MB with default buffers) to a raw peer (socketpair or std-lib TCP) that does not read, and once the flush is parked the peer writes a 1..2000-byte reply and shuts its write side down (half of them then drain): the reader / handler must get exactly the reply, then end-of-stream, and the parked Write must return; every third scenario starts with one flush of 34..48 pieces of 4..8 KiB (Malloc or WriteBinary: a node each; default socket buffers so that one sendmsg takes more than barriercap nodes\' worth) and the same burst is a random sender op; scripted kernel: every third sequence starts with 30..44 such pieces, one submit and output rounds in which the kernel takes all / a part; oracle = position-keyed stream + byte count at end-of-stream + no stall. distinct_nontrivial = distinct scripted final states + distinct real scenario lines',
                    samples=sres[0]['samples'][:1] + [re.sub(r'ops=map\[[^]]*\]', '', l) for l in lines[:2]], scripted_sequences=nseq, scripted_op_histogram=dict(hist),
                    real_scenarios=len(lines), real_scenarios_by_kind=dict(tr), real_bytes_transferred=total_bytes, traces_validated_against_impl=nseq)
     rep.assumptions += ['A-kernel-fifo: a stream socket is a lossless FIFO and sendmsg/readv report honest counts',
@@ -108,6 +110,8 @@ def run(rep):
 
 def replay(rep, path):
     lines = [l for l in open(path).read().split('\n') if l.strip()]
+    # the scenario generator depends on the tier (-big): the replay header says which one produced the file
+    big = any(l.startswith('# property=') and 'tier=thorough' in l for l in lines)
     common.lake_build(['npdriver'])
     if any(l.startswith('scn ') for l in lines):
         rbin, _ = common.build_harness('streamh')
@@ -116,7 +120,7 @@ def replay(rep, path):
             if not l.startswith('scn '): continue
             seed = int(re.search(r'seed=(\d+)', l).group(1)); sid = int(re.search(r' id=(\d+)', l).group(1))
             for _ in range(5):
-                l2, _, _ = real_run(rbin, seed, sid + 1, 1, 'total=3355' in l or 'total=419' in l, only=sid)
+                l2, _, _ = real_run(rbin, seed, sid + 1, 1, big, only=sid)
                 print('REPLAY:', re.sub(r'ops=map\[[^]]*\]', '', l2[0]) if l2 else 'no output')
                 if l2 and ':: FAIL' in l2[0]: n += 1
         rep.cov['evaluations'] = len(lines)
